@@ -383,9 +383,27 @@ impl World for MtWorld {
             if self.p_signal > 0 && self.tape.chance(self.p_signal, 100) && self.maybe_signal() {
                 continue;
             }
-            let tasks = self.tasks_checked();
-            let cand: Vec<i32> = tasks.iter().copied().filter(|&t| (pid == -1 || pid == t) && self.pending_event(t)).collect();
-            let runnable = self.runnable();
+            // observe twice: the picture (tasks, their pending events, who may be released) must
+            // be the same on two consecutive looks, otherwise something was still in motion
+            let (tasks, cand, runnable) = {
+                let mut prev: Option<(Vec<i32>, Vec<i32>, Vec<usize>)> = None;
+                let mut tries = 0;
+                loop {
+                    let tasks = self.tasks_checked();
+                    let cand: Vec<i32> = tasks.iter().copied().filter(|&t| (pid == -1 || pid == t) && self.pending_event(t)).collect();
+                    let runnable = self.runnable();
+                    let now = (tasks, cand, runnable);
+                    tries += 1;
+                    if prev.as_ref() == Some(&now) || tries > 50 {
+                        break now;
+                    }
+                    prev = Some(now);
+                    std::thread::yield_now();
+                    if !self.quiesce() {
+                        return None;
+                    }
+                }
+            };
             if !cand.is_empty() && (runnable.is_empty() || self.tape.chance(self.p_deliver, 100)) {
                 let t = if cand.len() == 1 { cand[0] } else { cand[self.tape.choose(cand.len())] };
                 if cand.len() > 1 {
